@@ -336,6 +336,15 @@ JudgeOut judge(const json &plan)
 							break;
 						}
 				}
+				if (role == "n" && vt != "kv" && !in_kv && toks[ti][4].get<int>() == 0) {
+					// a path whose first component does not exist, or is a value option instead of a section
+					faults.push_back({"undeclared_first_component_in_path", {{"key", "mut"}, {"value", json::array({ci, ti, "\"nosuch_zz|x\""})}}});
+					for (auto &so : plan["schemas"][0]["opts"])
+						if (so["t"] != "sec" && so["t"] != "func") {
+							faults.push_back({"value_option_as_path_component", {{"key", "mut"}, {"value", json::array({ci, ti, "\"" + so["n"].get<std::string>() + "|x\""})}}});
+							break;
+						}
+				}
 				if (role == "n" && vt != "kv" && !in_kv) // an empty quoted string where an option name is expected
 					faults.push_back({"empty_name", {{"key", "mut"}, {"value", json::array({ci, ti, "\"\""})}}});
 				if (role == "n" && vt != "kv" && !in_kv) // in a free-form section an unknown name is a new key, not an error
